@@ -1,3 +1,4 @@
+#![cfg_attr(feature = "pattern", feature(pattern))]
 pub mod drv;
 pub mod esref;
 pub mod kf;
